@@ -169,11 +169,38 @@ func init() {
 	in["os.Getenv"] = func(ex *Exec, fn *ssa.Function, args []Value) Value { return Str{} }
 	in["time.Now"] = func(ex *Exec, fn *ssa.Function, args []Value) Value {
 		// Time{wall, ext, loc}: no monotonic reading, ext = seconds since year 1
-		sec := ex.fresh("now", 64)
+		// not an nd input: native replays read the real clock
+		var sec *Term
+		if ex.isConcrete {
+			sec = ex.st.Const(64, 63000000000)
+		} else {
+			ex.nowCount++
+			sec = ex.st.Var(fmt.Sprintf("now%d", ex.nowCount), 64)
+		}
 		z := ex.zero(fn.Signature.Results().At(0).Type()).(Struct)
 		z[0] = ex.st.Const(64, 0)
 		z[1] = sec
 		return z
+	}
+	// time.Time.Truncate(time.Second): clears the nanosecond field (no monotonic reading).
+	// The generic path divides a symbolic 64-bit value by 1e9, which no solver here decides.
+	in["(time.Time).Truncate"] = func(ex *Exec, fn *ssa.Function, args []Value) Value {
+		t := args[0].(Struct)
+		d := args[1].(*Term)
+		wall := t[0].(*Term)
+		if !d.IsConst() || d.Val != 1000000000 {
+			panic(engineErr("time.Truncate with a duration other than time.Second is not modelled"))
+		}
+		mono := ex.st.Extract(wall, 63, 1)
+		if !(mono.IsConst() && mono.Val == 0) {
+			if ex.isConcrete || ex.check(ex.st.Eq(mono, ex.st.Const(1, 1))) != Unsat {
+				panic(engineErr("time.Truncate on a time with a monotonic reading is not modelled"))
+			}
+		}
+		out := make(Struct, len(t))
+		copy(out, t)
+		out[0] = ex.st.Bin(OpBAnd, wall, ex.st.Const(64, ^uint64(0x3fffffff)))
+		return out
 	}
 	in["runtime.Gosched"] = nop
 	in["runtime.KeepAlive"] = nop
